@@ -1,6 +1,8 @@
 package transports
 
 import (
+	"github.com/zishang520/engine.io-go-parser/packet"
+	"github.com/zishang520/engine.io/v2/types"
 	verif "github.com/zishang520/engine.io/v2/internal/zzverif"
 )
 
@@ -29,4 +31,23 @@ func VerifH_C09_polling_hostile() {
 	}
 	verif.Assert(p.dataCtx.Load() == nil || w.writeCalls == 0, "the data slot is released once the request is answered")
 	_ = rec
+}
+
+// VerifH_C09_accept_encoding_bytes: the Accept-Encoding header is client input: a coding
+// name followed by ARBITRARY parameter bytes must never crash the response writer.
+func VerifH_C09_accept_encoding_bytes() {
+	p, _ := newPolling("4")
+	p.SetHttpCompression(&types.HttpCompression{Threshold: 0})
+	tail := verif.String(2)
+	for i := 0; i < len(tail); i++ {
+		verif.Assume(tail[i] < 0x80) // header values are ASCII
+	}
+	ae := [2]string{"gzip;", "br ;"}[verif.Choose(2)] + tail
+	ctx, w := newCtx("GET", "4")
+	ctx.Request().Header.Set("Accept-Encoding", ae)
+	ctx.Headers().Set("Accept-Encoding", ae)
+	p.OnRequest(ctx)
+	p.Send([]*packet.Packet{{Type: packet.MESSAGE, Data: types.NewStringBufferString("hi"), Options: &packet.Options{Compress: true}}})
+	verif.Settle()
+	verif.Assert(w.writeCalls == 1, "the poll is answered")
 }
